@@ -188,3 +188,8 @@ func VerifC18_Resources() {
 	vcheck("reset", !has(b) && !has(a))
 	vreach("end")
 }
+
+// mappers, filters and queries created while few types are registered keep working after
+// the registry grew past one mask word (and, thorough, up to the documented maximum)
+func VerifC18_EarlyMappersAcrossGrowth() { vManyComponents(70) }
+func VerifC18T_EarlyMappersAtMaximum()   { vManyComponents(maskTotalBits - 2) }
